@@ -267,7 +267,8 @@ func stageFormat(raw json.RawMessage) Result {
 	src := pieces(c.Variants[0])
 	o1 := execute(src, []string{"in1", "in2"}, nil, 20000, false, false, 1) // endless programs are cut at yield 20000
 	o2 := execute(first, []string{"in1", "in2"}, nil, 20000, false, false, 1)
-	if o1.Result != o2.Result || !reflect.DeepEqual(normEffects(o1.Effects), normEffects(o2.Effects)) {
+	// (compared as text: a NaN argument of a platform call is not equal to itself)
+	if o1.Result != o2.Result || effectString(normEffects(o1.Effects)) != effectString(normEffects(o2.Effects)) {
 		return Result{OK: false, Obs: obs, Diff: fmt.Sprintf("source and formatted source behave differently: %s / %s", o1.Result, o2.Result)}
 	}
 	obs["result"] = o1.Result
